@@ -1035,6 +1035,14 @@ func (c *compiler) VisitBinaryExpr(e *ast.BinaryExpr) ast.VisitResult {
 
 	// compile the two expressions onto which the operator is applied
 	lhs, lhsTyp, isTempLhs := c.evaluate(e.Lhs)
+	// operands are evaluated from left to right: if the right operand contains a call that can reach the variable
+	// the left operand is (a part of), the value of the left operand has to be taken before that call runs,
+	// as the call may change the variable or free the part
+	if !isTempLhs && !lhsTyp.IsPrimitive() && c.laterOperandMayChange(e.Lhs, e.Rhs) {
+		dest := c.NewAlloca(lhsTyp.IrType())
+		lhs, lhsTyp = c.scp.addTemporary(c.deepCopyInto(dest, lhs, lhsTyp), lhsTyp)
+		isTempLhs = true
+	}
 	rhs, rhsTyp, isTempRhs := c.evaluate(e.Rhs)
 	// big switches on the different type combinations
 	switch e.Operator {
@@ -2091,6 +2099,76 @@ func mentionsVar(expr ast.Expression, decl *ast.VarDecl) bool {
 		return ast.VisitRecurse
 	}), expr, nil)
 	return found
+}
+
+// finds calls: function calls and applications of overloaded operators
+type callFinder struct {
+	found bool
+}
+
+func (*callFinder) Visitor() {}
+
+func (f *callFinder) overload(overload *ast.OperatorOverload) ast.VisitResult {
+	if overload != nil {
+		f.found = true
+		return ast.VisitBreak
+	}
+	return ast.VisitRecurse
+}
+
+func (f *callFinder) VisitFuncCall(*ast.FuncCall) ast.VisitResult {
+	f.found = true
+	return ast.VisitBreak
+}
+func (f *callFinder) VisitUnaryExpr(e *ast.UnaryExpr) ast.VisitResult {
+	return f.overload(e.OverloadedBy)
+}
+func (f *callFinder) VisitBinaryExpr(e *ast.BinaryExpr) ast.VisitResult {
+	return f.overload(e.OverloadedBy)
+}
+
+func (f *callFinder) VisitTernaryExpr(e *ast.TernaryExpr) ast.VisitResult {
+	return f.overload(e.OverloadedBy)
+}
+func (f *callFinder) VisitCastExpr(e *ast.CastExpr) ast.VisitResult {
+	return f.overload(e.OverloadedBy)
+}
+
+// returns the variable a non-temporary operand is (a part of), nil if that is not known
+func operandRootVarDecl(expr ast.Expression) *ast.VarDecl {
+	for {
+		switch e := expr.(type) {
+		case *ast.Grouping:
+			expr = e.Expr
+		case *ast.BinaryExpr:
+			if e.OverloadedBy != nil {
+				return nil
+			}
+			switch e.Operator {
+			case ast.BIN_INDEX:
+				expr = e.Lhs
+			case ast.BIN_FIELD_ACCESS:
+				expr = e.Rhs
+			default:
+				return nil
+			}
+		default:
+			return rootVarDecl(expr)
+		}
+	}
+}
+
+// reports whether evaluating later may change the value of the non-temporary operand, which was evaluated
+// before it and is (a part of) a variable: later contains a call and the variable is a global,
+// bound to a reference, mentioned in later (where it may be passed by reference) or not known
+func (c *compiler) laterOperandMayChange(operand, later ast.Expression) bool {
+	finder := &callFinder{}
+	ast.VisitNode(finder, later, nil)
+	if !finder.found {
+		return false
+	}
+	root := operandRootVarDecl(operand)
+	return root == nil || root.IsGlobal || c.scp.lookupVar(root).isRef || mentionsVar(later, root)
 }
 
 // reports whether the storage of arg itself may be handed to a parameter the callee only reads:
